@@ -126,10 +126,59 @@ def run(prop, seed, budget, ctx):
             res = graphql.graphql_sync(schema, "{ q%d%s%s }" % (i, bad, (" { %s }" % sel) if sel else ""))
             if not res.errors: fail("invalid-argument-accepted", info=info, data=res.data)
             if mod.LOG: fail("resolver-invoked-with-an-invalid-argument", info=info, log=list(mod.LOG))
+    # constrained arguments (a valid GraphQL Int that apischema rejects) with and without an error_handler, and interface chains
+    from apischema.graphql import Query, interface
+    fam = ["from dataclasses import dataclass, field", "from typing import *", "from apischema import schema", "from apischema.graphql import interface", "LOG = []", ""]
+    nf = 20 * budget
+    for i in range(nf):
+        fam += [f"Qty{i} = NewType('Qty{i}', int)", f"schema(min=1)(Qty{i})", "",
+                "@dataclass", f"class Order{i}:", f"    quantity: Qty{i}", "    label: str = field(default='x', metadata=schema(min_len=1))", "",
+                f"def price{i}(quantity: Qty{i}) -> int:", f"    LOG.append(('price', quantity))", "    return quantity * 2", "",
+                f"def place{i}(order: Order{i}) -> int:", f"    LOG.append(('place', order))", "    return order.quantity", "",
+                "@interface", "@dataclass", f"class Entity{i}:", "    id: int", "",
+                "@interface", "@dataclass", f"class Named{i}(Entity{i}):", "    name: str", "",
+                "@dataclass", f"class User{i}(Named{i}):", "    email: str", "",
+                "@dataclass", f"class Base{i}(Entity{i}):", "    revision: int", "",
+                "@dataclass", f"class Doc{i}(Base{i}):", "    title: str", "",
+                f"def entities{i}() -> List[Entity{i}]:", f"    return [User{i}(1, 'bob', 'b@x'), Doc{i}(2, 7, 'spec')]", ""]
+    fmod = build_module(fam, f"gqlfam{seed}")
+    for i in range(nf):
+        price, place, ents = getattr(fmod, f"price{i}"), getattr(fmod, f"place{i}"), getattr(fmod, f"entities{i}")
+        handler_mode = ["default", "none", "custom"][i % 3]
+        handled = []
+        def record(error, obj, info, **kwargs) -> None: handled.append(error); return None
+        mk = (lambda f: f) if handler_mode == "default" else (lambda f: Query(f, error_handler=None)) if handler_mode == "none" else (lambda f: Query(f, error_handler=record))
+        info = {"family": i, "error_handler": handler_mode}
+        try: sch = graphql_schema(query=[mk(price), mk(place), ents], types=[getattr(fmod, f"User{i}"), getattr(fmod, f"Doc{i}")])
+        except Exception as e:
+            fail("schema-generation-raises:" + type(e).__name__, info=info, msg=str(e)[:200]); continue
+        evaluations += 1; distinct.add(("family", i))
+        errs = graphql.validate_schema(sch)
+        if errs: fail("schema-does-not-pass-graphql-core-validation", info=info, errors=[str(e) for e in errs][:3])
+        for q, fname in ((f"{{ price{i}(quantity: 0) }}", f"price{i}"), (f"{{ place{i}(order: {{quantity: 0}}) }}", f"place{i}"),
+                         (f'{{ place{i}(order: {{quantity: 2, label: ""}}) }}', f"place{i}")):
+            evaluations += 1; fmod.LOG.clear(); handled.clear()
+            res = graphql.graphql_sync(sch, q)
+            if fmod.LOG: fail("resolver-invoked-with-an-invalid-argument", info=info, query=q, log=repr(fmod.LOG))
+            if not res.errors: fail("invalid-argument-accepted", info=info, query=q, data=res.data)
+        for q, fname, want in ((f"{{ price{i}(quantity: 3) }}", f"price{i}", 6), (f"{{ place{i}(order: {{quantity: 2}}) }}", f"place{i}", 2)):
+            evaluations += 1; fmod.LOG.clear()
+            res = graphql.graphql_sync(sch, q)
+            if res.errors or res.data[fname] != want: fail("execution-differs-from-serialize", info=info, query=q, errors=[str(e) for e in res.errors or []][:2], data=res.data)
+        # every @interface among the ancestors of a class is implemented; fragments on the concrete types work
+        for cname, expected in ((f"User{i}", {f"Entity{i}", f"Named{i}"}), (f"Doc{i}", {f"Entity{i}"})):
+            t = sch.type_map.get(cname)
+            got = {x.name for x in getattr(t, "interfaces", [])} if t is not None else None
+            if got != expected: fail("interfaces-do-not-mirror-the-class-hierarchy", info=info, cls=cname, got=sorted(got) if got is not None else None, expected=sorted(expected))
+        q = f"{{ entities{i} {{ id ... on User{i} {{ name email }} ... on Doc{i} {{ title }} }} }}"
+        res = graphql.graphql_sync(sch, q); evaluations += 1
+        want = [{"id": 1, "name": "bob", "email": "b@x"}, {"id": 2, "title": "spec"}]
+        if res.errors or res.data[f"entities{i}"] != want: fail("execution-differs-from-serialize", info=info, query=q, errors=[str(e) for e in res.errors or []][:2], data=res.data)
     return {"evaluations": evaluations, "distinct_nontrivial": len(distinct),
             "rule": "generated query resolvers: return types over primitives / Optional / List / enums / dataclasses nested to depth 3, one optional argument "
-                    "(required int, defaulted int, Optional[int], List[int]); full-selection execution with valid and invalid arguments; non-trivial = "
-                    "non-primitive return type; distinct by (return type, argument)",
+                    "(required int, defaulted int, Optional[int], List[int]); full-selection execution with valid and invalid arguments; plus families with a constrained NewType / input-object argument "
+                    "under three error_handler settings and an interface chain (interface <- interface <- class, interface <- plain class <- class); non-trivial = "
+                    "non-primitive return type or a family; distinct by (return type, argument)",
             "samples": samples, "histograms": dict(hist), "failures": failures}
 
 
